@@ -362,14 +362,15 @@ def finish(ctx, level, rule, extra_cov=None, exhaustive=False):
     cov["other_property_violations_seen"] = sorted({v["property"] for v in ctx.violations if v["property"] != ctx.prop})
     ev = {"property_id": ctx.prop, "tier": ctx.tier, "seed": ctx.seed, "level": level, "coverage": cov,
           "assumptions": ctx.assumptions, "wall_s": round(time.time() - ctx.t0, 1), "violations": len(mine)}
-    os.makedirs(os.path.join(VERIF, "evidence"), exist_ok=True)
-    with open(os.path.join(VERIF, "evidence", ctx.prop + ".json"), "w") as f:
+    evdir = os.environ.get("VERIF_EVIDENCE_DIR", os.path.join(VERIF, "evidence"))
+    os.makedirs(evdir, exist_ok=True)
+    with open(os.path.join(evdir, ctx.prop + ".json"), "w") as f:
         json.dump(ev, f, indent=1)
         f.write("\n")
     for fid, (fd, n) in sorted(ctx.known_hits.items()):
         print("KNOWN-FINDING: property=%s %s (%s; %d cases this run)" % (fd["property"], fd["id"], fd["what"], n))
     if mine:
-        rd = os.path.join(VERIF, "replays", ctx.prop)
+        rd = os.path.join(os.environ.get("VERIF_REPLAY_DIR", os.path.join(VERIF, "replays")), ctx.prop)
         os.makedirs(rd, exist_ok=True)
         k = 1
         while os.path.exists(os.path.join(rd, "%d.json" % k)):
